@@ -161,12 +161,21 @@ def run(chk, replay_rec):
     if bad:
         first = bad[:6]
         again = {}
-        # deterministic schedules must reproduce at once; racing writes get up to 30 attempts
+        # forced schedules normally reproduce at once; a failure that depends on timing the gate does not control (the
+        # caller returning before the writer has finished, racing writes) is repeated: 30 single attempts for racing
+        # writes, then up to 3 x 300 repetitions of each schedule that has not reproduced yet
         for attempt in range(30):
             todo = [o for o, _ in first if key_of(o, "") not in again and (attempt == 0 or o["vec"].get("async"))]
             if not todo:
                 break
             o2 = replay(chk, [o["vec"] for o in todo])
+            for o, why in judge_runs(chk, o2):
+                again.setdefault(key_of(o, ""), why)
+        for attempt in range(3):
+            todo = [o for o, _ in first if key_of(o, "") not in again][:3]
+            if not todo:
+                break
+            o2 = replay(chk, [o["vec"] for o in todo for _ in range(300)])
             for o, why in judge_runs(chk, o2):
                 again.setdefault(key_of(o, ""), why)
         for o, why in first:
